@@ -29,6 +29,8 @@ def run_one(seed, checks):
         subprocess.run(["cp", "-r", os.path.join(REPO, "docs"), dst], check=False)
         if seed != "CLEAN":
             patch = os.path.join(VERIF, "seeded", seed, "patch.diff")
+            if seed.startswith("T") and not os.path.exists(patch):
+                patch = os.path.join(VERIF, "selftest", "twins", seed + ".diff")
             r = subprocess.run(["patch", "-p1", "-s", "-d", dst, "-i", patch], capture_output=True, text=True)
             if r.returncode != 0:
                 return seed, {c: "P" for c in checks}, r.stdout + r.stderr
@@ -48,8 +50,11 @@ def main():
     ap.add_argument("--checks")
     ap.add_argument("--seeds")
     ap.add_argument("--jobs", type=int, default=16)
+    ap.add_argument("--twins", action="store_true", help="run the behaviour-preserving twins (selftest/twins): every check must stay silent")
     a = ap.parse_args()
     checks = a.checks.split(",") if a.checks else checks_available()
+    if a.twins:
+        a.seeds = ",".join(sorted(f[:-5] for f in os.listdir(os.path.join(VERIF, "selftest", "twins")) if f.endswith(".diff")))
     seeds = a.seeds.split(",") if a.seeds else ["CLEAN"] + sorted(d for d in os.listdir(os.path.join(VERIF, "seeded")) if os.path.isdir(os.path.join(VERIF, "seeded", d)))
     out = {}
     with ThreadPoolExecutor(a.jobs) as ex:
@@ -61,6 +66,10 @@ def main():
             print(f"{seed:8s} own={res.get(own, 'n/a')} caught_by={','.join(hit) or '-'} errors={','.join(errs) or '-'} {err[:100]}")
     if not a.checks and not a.seeds:
         json.dump(out, open(os.path.join(VERIF, "seeded", "MATRIX.json"), "w"), indent=1, sort_keys=True)
+    noisy = {s: [c for c, v in r.items() if v != "-"] for s, r in out.items() if s.startswith("T") and any(v != "-" for v in r.values())}
+    if noisy:
+        print("FALSE ALARMS ON TWINS:", noisy)
+        sys.exit(1)
     bad_clean = [c for c, v in out.get("CLEAN", {}).items() if v != "-"]
     if bad_clean:
         print("CLEAN TREE ALARMS:", bad_clean)
